@@ -163,7 +163,7 @@ THAwaited ==
      /\ pendA' = pendA \ C
      /\ failedH' = failedH \ C
      /\ lastw' = 3 * Line.w + (IF Line.kind = "tasks" THEN 2 ELSE 1)
-     /\ cancelled' = (cancelled \/ (step.k \in {"before", "leave"} /\ \E c \in C : HK(c).crit /\ HK(c).fails))
+     /\ cancelled' = (cancelled \/ (step.k \in {"before", "leave"} /\ \E c \in C : HK(c).crit /\ HK(c).fails /\ (HK(c).once => c \in failedH)))
      /\ step' = [step EXCEPT !.cf = @ \/ (step.m = Line.m /\ \E c \in C \cap failedH : HK(c).crit)]
      /\ nviol' = nviol
           \* collected at the declared await point, and only calls that were started and not collected before
